@@ -370,6 +370,12 @@ func genC18(r *RNG, tier string) []Case {
 		cs = append(cs, Case{Line: "g56 op=string set=" + start.abs(), Class: "add-sequences", Nontrivial: true, Run: func(resp map[string]string) Outcome {
 			cur := start.impl()
 			var curG replication.GTIDSet = cur
+			// every set produced along the way, with the text it had when it was produced: none may change later
+			type made struct {
+				s   replication.GTIDSet
+				txt string
+			}
+			var history []made
 			sem := set56{}
 			for k, l := range start {
 				sem[k] = append([]iv(nil), l...)
@@ -395,6 +401,25 @@ func genC18(r *RNG, tier string) []Case {
 					out.Note = "after a sequence of AddGTID the set is not the canonical union"
 					out.FindingKey = "add-sequence"
 					out.Impl, out.Spec = got, normStr(sem.norm())
+				}
+				history = append(history, made{next, next.String()})
+				// branch: add two different GTIDs beyond the end to the same parent; siblings must not disturb
+				// each other nor any set made earlier (an append into a parent's spare capacity would)
+				b1 := next.AddGTID(mkGtid56(o.sid, 1000+int64(len(history))*10))
+				t1 := b1.String()
+				b2 := next.AddGTID(mkGtid56(o.sid, 5000+int64(len(history))*10))
+				_ = b2
+				if b1.String() != t1 {
+					out.OracleOK = false
+					out.Note = "a set returned by AddGTID changed when another GTID was added to the same parent"
+					out.FindingKey = "add-sibling-aliasing"
+				}
+				for _, h := range history {
+					if h.s.String() != h.txt {
+						out.OracleOK = false
+						out.Note = "a set derived earlier changed after later AddGTID calls"
+						out.FindingKey = "add-alters-earlier-set"
+					}
 				}
 				curG = next
 			}
